@@ -189,7 +189,7 @@ def llVerdict (o : Obj) (impl : Option (List String)) : String :=
     | [a] =>
       match implFloat? a with
       | none => "FAIL:parse"
-      | some x => both (histCheck o ans (specOf o .logLik)) (if o.stale then "-" else llCheck o.tab o.bps x)
+      | some x => both (if o.stale then "-" else llCheck o.tab o.bps x) (histCheck o ans (specOf o .logLik))
     | _ => "FAIL:parse"
 
 /-- tolerance on a posterior row sum: 1e-9, widened for the log-space class whose exponent
@@ -416,6 +416,10 @@ def step (s : St) (op : List String) (impl : Option (List String)) : St × Strin
       | some c =>
         let o : Obj := { core := c, withParams := wp == "1", tab := t }
         (s.put k o, hx o.logLik, llVerdict o impl)
+  | ["clone", a, b] =>
+    match s.get? a with
+    | none => (s, "no-object", "-")
+    | some o => (s.put b o, hx o.logLik, llVerdict o impl)
   | "agree" :: ks =>
     let os := ks.map s.get?
     let out := " ".intercalate (os.map (fun o => match o with | some o => hx o.logLik | none => "none"))
@@ -447,7 +451,7 @@ def step (s : St) (op : List String) (impl : Option (List String)) : St × Strin
           update s k o t (.setTables t.model) impl
       | "post", [] =>
         let (o1, a) := runOp o .posterior
-        (s.put k o1, showAns a, both (match impl with | some i => if isExc i then "-" else histCheck o i (specOf o .posterior) | none => "-") (postVerdict o impl none))
+        (s.put k o1, showAns a, both (postVerdict o impl none) (match impl with | some i => if isExc i then "-" else histCheck o i (specOf o .posterior) | none => "-"))
       | "post1", [site] =>
         match nat? site with
         | none => (s, "bad-op", "-")
@@ -500,12 +504,18 @@ def step (s : St) (op : List String) (impl : Option (List String)) : St × Strin
             match impl with
             | some i => if isExc i || var == "" then "-" else
                 (match o.core with
-                 | .resc _ => both (histCheck o i (specOf o mop)) (derivVerdict o i var (if dop == "d1" then 1 else 2))
+                 | .resc _ => both (derivVerdict o i var (if dop == "d1" then 1 else 2)) (histCheck o i (specOf o mop))
                  | _ => "-")
             | none => "-")
       | _, _ => (s, "bad-op", "-")
   | _ => (s, "bad-op", "-")
 
-def machine : Machine St := { init := fun _ => {}, step := step }
+/-- a crash / sanitizer abort / time-out of the harness inside an operation is a failure of its own -/
+def step' (s : St) (op : List String) (impl : Option (List String)) : St × String × String :=
+  match impl with
+  | some [a] => if a.startsWith "crash" || a == "hang" || a == "short" then (let r := step s op none; (r.1, r.2.1, "FAIL:crash")) else step s op impl
+  | _ => step s op impl
+
+def machine : Machine St := { init := fun _ => {}, step := step' }
 
 end Bpp.Drive.C13
